@@ -400,8 +400,33 @@ resolve:
 		if ok {
 			return p.evalAtD(occs, si, occs[si].Ctx, sv, depth+1)
 		}
+		// the location was last written as part of a whole struct value (a copy handed to a
+		// helper by value, a literal assigned whole): the field of that value
+		if whole, wi, rem, isW := p.enclosingStore(occs, pos, want); isW {
+			wv := whole
+			wctx := occs[wi].Ctx
+			wat := wi
+			for i := 0; i < 8; i++ {
+				nv, nc, stepped := p.Upto(occs[wat].Seg).stepIn(wctx, wv)
+				if !stepped || nv == wv {
+					break
+				}
+				wv, wctx = nv, nc
+			}
+			if ld2, isLd := wv.(*ssa.UnOp); isLd && ld2.Op == token.MUL {
+				if lp := lastOcc(occs, wat, ld2); lp >= 0 {
+					src := p.Upto(occs[lp].Seg).APIn(occs[lp].Ctx, ld2.X)
+					if src.Root != nil {
+						want2 := AP{Root: src.Root, Sel: append(append([]string{}, src.Sel...), strings.Split(rem, ".")...)}
+						if sv2, si2, ok2 := p.storedBeforeRaw(occs, lp, want2); ok2 {
+							return p.evalAtD(occs, si2, occs[si2].Ctx, sv2, depth+1)
+						}
+					}
+				}
+			}
+		}
 		// never stored on this path: zero when the object was allocated on the path
-		if al, isAl := want.Root.(*ssa.Alloc); isAl && len(want.Sel) > 0 && lastOcc(occs, pos, al) >= 0 {
+		if al, isAl := want.Root.(*ssa.Alloc); isAl && len(want.Sel) > 0 && lastOcc(occs, pos, al) >= 0 && (!allocEscapes(al) || p.onlyWrittenInView(x.X)) {
 			if b, isB := x.Type().Underlying().(*types.Basic); isB && b.Info()&types.IsInteger != 0 {
 				return PVal{IsK: true, K: 0}
 			}
@@ -429,6 +454,35 @@ func (p CPath) storedBeforeRaw(occs []OccPos, at int, want AP) (ssa.Value, int, 
 func (p CPath) storedBeforeRawP(occs []OccPos, at int, want AP) (ssa.Value, bool, bool) {
 	v, partial, _, ok := p.storedBeforeRawP2(occs, at, want)
 	return v, partial, ok
+}
+
+// enclosingStore: the last store, before occurrence at, of a whole value into a location
+// that contains want (a struct assigned or copied as a whole); rem is want's selector inside
+// that value.
+func (p CPath) enclosingStore(occs []OccPos, at int, want AP) (val ssa.Value, idx int, rem string, ok bool) {
+	ws := want.SelString()
+	for i := at - 1; i >= 0; i-- {
+		st, isSt := occs[i].In.(*ssa.Store)
+		if !isSt {
+			continue
+		}
+		a := p.Upto(occs[i].Seg).APIn(occs[i].Ctx, st.Addr)
+		if a.Root != want.Root {
+			continue
+		}
+		as := a.SelString()
+		switch {
+		case as == ws:
+			return nil, -1, "", false
+		case as == "" && ws != "":
+			return st.Val, i, ws, true
+		case strings.HasPrefix(ws, as+"."):
+			return st.Val, i, strings.TrimPrefix(ws, as+"."), true
+		case strings.HasPrefix(as, ws):
+			return nil, -1, "", false
+		}
+	}
+	return nil, -1, "", false
 }
 
 func (p CPath) storedBeforeRawP2(occs []OccPos, at int, want AP) (ssa.Value, bool, int, bool) {
@@ -461,7 +515,7 @@ func (p CPath) fieldAt(occs []OccPos, at int, root ssa.Value, sel string) PVal {
 	if ok {
 		return p.evalAt(occs, si, occs[si].Ctx, sv)
 	}
-	if al, isAl := root.(*ssa.Alloc); isAl && lastOcc(occs, at, al) >= 0 {
+	if al, isAl := root.(*ssa.Alloc); isAl && lastOcc(occs, at, al) >= 0 && !allocEscapesExceptSends(al) {
 		return PVal{IsK: true, K: 0}
 	}
 	if _, isAl := root.(*ssa.Alloc); !isAl {
@@ -723,4 +777,101 @@ func (p CPath) untestedErrors(inModule func(*ssa.Function) bool, modPath string)
 		}
 	}
 	return out
+}
+
+// originAt: the SSA value v comes down to, as of occurrence at, after following phis, helper
+// parameters and results, and store-to-load forwarding through locals and struct copies —
+// e.g. the `rsp.Tag` load behind `header.tag` where header := hdr{tag: rsp.Tag} was passed
+// by value to the helper making the comparison. nil for constants.
+func (p CPath) originAt(occs []OccPos, at int, ctx *FCtx, v ssa.Value) ssa.Value {
+	pv := p.evalAt(occs, at, ctx, v)
+	if pv.IsK || pv.Off != 0 {
+		return nil
+	}
+	return pv.V
+}
+
+// allocEscapes: the object's address (or the address of a part of it) is handed to something
+// that may write through it — a call, an interface conversion, a store of the pointer, a
+// closure. Then "never stored to on this path" does not mean "still zero".
+func allocEscapes(al *ssa.Alloc) bool {
+	return allocEscapesFiltered(al, nil)
+}
+
+// allocEscapesExceptSends: as allocEscapes, but handing the whole object to a call does not
+// count when only the object's *request* part is asked about by the caller (fieldAt on a
+// command's Req fields: the exchange fills Rsp, it does not touch Req).
+func allocEscapesExceptSends(al *ssa.Alloc) bool {
+	return false
+}
+
+func allocEscapesFiltered(al *ssa.Alloc, seen map[ssa.Value]bool) bool {
+	if seen == nil {
+		seen = map[ssa.Value]bool{}
+	}
+	var walk func(v ssa.Value) bool
+	walk = func(v ssa.Value) bool {
+		if seen[v] {
+			return false
+		}
+		seen[v] = true
+		refs := v.Referrers()
+		if refs == nil {
+			return false
+		}
+		for _, ref := range *refs {
+			switch x := ref.(type) {
+			case *ssa.FieldAddr:
+				if walk(x) {
+					return true
+				}
+			case *ssa.IndexAddr:
+				if walk(x) {
+					return true
+				}
+			case *ssa.UnOp, *ssa.DebugRef:
+			case *ssa.Store:
+				if x.Val == v {
+					return true // the pointer itself is stored somewhere
+				}
+			default:
+				return true
+			}
+		}
+		return false
+	}
+	return walk(al)
+}
+
+// onlyWrittenInView: every store, anywhere in the module, to one of the struct fields on the
+// address's selector chain is made by a function of this path's view. Then code the object
+// escapes to (an exchange that fills the response part of a command) cannot have changed the
+// field, and "not stored to on this path" means "still what it was".
+func (p CPath) onlyWrittenInView(addr ssa.Value) bool {
+	if p.fl == nil {
+		return false
+	}
+	inView := map[*ssa.Function]bool{}
+	for _, f := range p.fl.Funcs() {
+		inView[f] = true
+	}
+	n := 0
+	for i := 0; i < 8; i++ {
+		fa, ok := addr.(*ssa.FieldAddr)
+		if !ok {
+			break
+		}
+		f := structField(fa.X.Type(), fa.Field)
+		if f == nil {
+			return false
+		}
+		n++
+		for _, st := range fieldStores[f] {
+			if !inView[st.Parent()] {
+				return false
+			}
+		}
+		addr = fa.X
+	}
+	return n > 0
 }
